@@ -1,6 +1,7 @@
 import Parmcb.Props.C02
 import Parmcb.Lemmas.RatAlpha
 import Parmcb.Lemmas.Float
+import Parmcb.Lemmas.FloatRet
 import Parmcb.Lemmas.FloatCert
 import Parmcb.Lemmas.FloatDijkstra
 import Parmcb.Lemmas.FloatLex
@@ -190,5 +191,20 @@ theorem c09_float_lex_dijkstra_cert (g : Graph) (hs : g.simpleB = true) (hp : g.
 example :
     let g : Graph := { n := 3, edges := [(0, 1, 2 ^ 60), (1, 2, 1), (0, 2, 2 ^ 60 + 2 ^ 40)] }
     flexDist g 0 (flexDijkstra g 0) = [some 0, some (2 ^ 60), some (2 ^ 60)] := by decide
+
+end Parmcb.C09
+
+namespace Parmcb.C09
+open Parmcb Parmcb.Float
+
+/-- **the returned value on inexact weights**: `mcb_weight` is the double accumulation of the per-phase weights, and the weight a
+phase reports is itself a double accumulation of the emitted cycle's edge weights (`cycle_weight += w(e)` along the
+reconstructed walk, then `+= w(se)` in the hidden-edge branch: a left fold in some order — Model/FloatSigned.lean).  With at most
+2^20 phases and at most 2^20 edges per cycle the returned double is within a relative 2^-30 (9.4e-10) of the exact total weight
+of the emitted cycles. -/
+theorem c09_ret_partial (phases : List (List Int)) (hpos : ∀ ws ∈ phases, ∀ w ∈ ws, 0 ≤ w)
+    (hlen : ∀ ws ∈ phases, ws.length ≤ 2 ^ 20) (hN : phases.length ≤ 2 ^ 20) :
+    2 ^ 30 * (fsum (phases.map fsum) - (phases.map List.sum).sum).natAbs ≤ ((phases.map List.sum).sum).natAbs :=
+  fsum_fsum_rel phases hpos hlen hN
 
 end Parmcb.C09
